@@ -24,7 +24,8 @@ MaskCells == {[k |-> "mask", sent |-> m, req |-> r, dev |-> "none", x |-> 0] :
 HeaderDevs == {<<"ver", 1>>, <<"ver", 3>>, <<"chipb", 64>>, <<"chipb", 65>>, <<"chipb", 68>>, <<"chipb", 69>>,
                <<"chipb", 97>>, <<"comp", 1>>, <<"comp", 255>>, <<"trig", 0>>, <<"trig", 1>>, <<"trig", 2>>,
                <<"trig", 3>>, <<"trig", 4>>, <<"trig", 255>>, <<"mac", 0>>, <<"zero18", 1>>, <<"zero19", 128>>,
-               <<"cell", 511>>, <<"cell", 512>>, <<"cell", 65535>>, <<"reqhdr", 512>>, <<"reqhdr", 65535>>,
+               <<"cell", 511>>, <<"cell", 512>>, <<"cell", 1024>>, <<"cell", 32768>>, <<"cell", 65535>>,
+               <<"reqhdr", 512>>, <<"reqhdr", 1024>>, <<"reqhdr", 32768>>, <<"reqhdr", 65535>>,
                <<"bit79sent", 0>>, <<"bit79thr", 0>>, <<"thrfull", 0>>}
 BlockDevs == {<<"idx", 0>>, <<"idx", 1>>, <<"idxswap", 0>>, <<"idx80", 0>>, <<"cnt", 1>>, <<"cntm", 1>>, <<"pad", 1>>, <<"pad", 256>>,
               <<"marker", 0>>, <<"marker", 3>>, <<"short", 1>>, <<"short", 2>>, <<"short", 4>>,
